@@ -35,6 +35,42 @@ theorem C18_union_partial (ctx : List Shard) (shards : List RShard) (q : Q)
       eval q ctx rs.shard d = true :=
   selectRepoSet_union ctx shards q hwf rs hrs d hl
 
+/-- **C18 as evaluated by the driver** (`checkSelect`, run on the implementation's selection and rewritten tree) holds of
+    the model's; `pos` records each shard's position in the loaded list -/
+theorem C18_checkSelect_partial (shards : List RShard) (q : Q) (hwf : wf noEmpty true q = true)
+    (hpos : ∀ (i : Nat) (rs : RShard), shards[i]? = some rs → rs.pos = i) :
+    checkSelect shards q ((selectRepoSet shards q).1.map (·.pos)) (selectRepoSet shards q).2 = true := by
+  simp only [checkSelect, List.all_eq_true]
+  intro i _
+  cases hi : shards[i]? with
+  | none => rfl
+  | some rs =>
+    simp only [List.all_eq_true]
+    intro d _
+    cases hl : rs.shard.live d with
+    | false => simp
+    | true =>
+      have hrs : rs ∈ shards := List.mem_of_getElem? hi
+      have hU := C18_union_partial (corpus shards) shards q hwf rs hrs d hl
+      have hc : ((selectRepoSet shards q).1.map (·.pos)).contains i = true ↔ rs ∈ (selectRepoSet shards q).1 := by
+        rw [List.contains_iff_mem, List.mem_map]
+        constructor
+        · rintro ⟨rs', hm, hp⟩
+          have hm' := selectRepoSet_subset shards q rs' hm
+          obtain ⟨j, hj⟩ := List.getElem?_of_mem hm'
+          have := hpos j rs' hj
+          have hji : j = i := by omega
+          subst hji
+          rw [hi] at hj
+          cases hj
+          exact hm
+        · intro hm
+          exact ⟨rs, hm, hpos i rs hi⟩
+      simp only [Bool.not_true, Bool.false_or, beq_iff_eq]
+      apply Bool.eq_iff_iff.mpr
+      rw [Bool.and_eq_true, hc]
+      exact hU
+
 /-- **C18, `type:repo` pre-evaluation** (`typeRepoSearcher.eval`): replacing every `type:repo` sub-query, innermost
     first and under any nesting of and/or/not/type/boost, by the `RepoSet` of the repositories the sharded `List`
     returns for its child never changes which live documents of the corpus match, and leaves no `type:repo` node.
